@@ -21,6 +21,7 @@ type FuncResult struct {
 	Assumed  []string // assumed contracts used
 	Callees  []string // verified contracts used
 	Decls    []string
+	Batches  []*Obligation
 }
 
 func (p *Program) funcDisplayName(fc *FuncContract) string {
@@ -51,6 +52,7 @@ func VerifyFunc(p *Program, ss *Sorts, reg *SpecReg, fc *FuncContract) (res *Fun
 			}
 		}
 		res.Obls = fv.obls
+		res.Batches = fv.batches
 		res.Paths = fv.paths
 		res.Decls = fv.decls
 		for n, c := range fv.notes {
@@ -193,12 +195,28 @@ func VerifyFunc(p *Program, ss *Sorts, reg *SpecReg, fc *FuncContract) (res *Fun
 			}
 		}
 		s2.defers = nil
+		n0 := len(fv.obls)
+		pc0 := s2.pc[:len(s2.pc):len(s2.pc)]
+		var goals []string
 		for _, c := range fc.Ensures {
 			t, err := fv.specEnv(s2, token.NoPos, vals, true).EvalBool(c.X)
 			if err != nil {
 				fv.abort(fd.Pos(), "ensures %q: %v", c.Text, err)
 			}
+			if t.S != "true" {
+				goals = append(goals, t.S)
+			}
 			fv.assert(s2, "post", t, fd.Pos(), c.Text)
+		}
+		if kids := fv.obls[n0:]; len(kids) > 1 {
+			// all postconditions of this return path are first tried as one conjunction
+			b := &Obligation{Name: kids[0].Name + "..batch", Kind: "batch", Func: fv.curFunc, Text: "conjunction of the postconditions of one return path",
+				Pos: kids[0].Pos, PC: pc0, Goal: sx("and", goals...), NDecl: len(fv.decls), Props: fv.fc.Props, fv: fv}
+			b.Batch = append([]*Obligation{}, kids...)
+			for _, k := range kids {
+				k.InBatch = b
+			}
+			fv.batches = append(fv.batches, b)
 		}
 		// frame: ghosts and reference parameters that are not declared modified stay unchanged
 		for _, g := range reg.gorder {
